@@ -376,6 +376,8 @@ def exec_stmts(ctx, stmts, b, target, acc):
                     fh.write(content)
                 t = ctx.clock[0]
                 ctx.clock[0] += 1
+                if len(st) > 2 and st[2] is not None:
+                    t = st[2]          # the function stamps a fixed modification time on its output
                 os.utime(target, ns=(t, t))
         elif k == 'if':
             _, cond, t_, e_ = st
